@@ -57,15 +57,15 @@ def check_file(args):
             continue
         # contract of the real parser and of the info object on this line
         info = cl.StabilizerCircuitInfo(n, line)
-        ok_info = (info.graph_id, info.cost, info.depth, info.circuit_string, info.num_qubits) == (gid, cost, depth, parts[3], n)
+        ok_info = (info.graph_id, info.cost, info.depth, info.num_qubits) == (gid, cost, depth, n) and adapt.same_text(info.circuit_string, parts[3])
         out("C17.info.post", ok_info, k, f"{fname} line {k}: StabilizerCircuitInfo fields differ from the line's fields")
         real = adapt.gates_of(info.parse_circuit())
-        out("C17.parse.post", real == gates, k,
+        out("C17.parse.post", adapt.circuit_key(real) == adapt.circuit_key(gates), k,
             f"{fname} line {k}: parse_circuit gate list {real[:6]}.. != token list {gates[:6]}..",
             {"file": fname, "line": k, "gates": gates[:5]})
         if advertised:
             looked = cl.stabilizer_circuit_lookup(n, conn, k)
-            ok_l = (looked.graph_id, looked.cost, looked.depth, looked.circuit_string) == (gid, cost, depth, parts[3])
+            ok_l = (looked.graph_id, looked.cost, looked.depth) == (gid, cost, depth) and adapt.same_text(looked.circuit_string, parts[3])
             out("C17.lookup.post", ok_l, k, f"lookup({n},{conn!r},{k}) does not return line {k} of {fname}")
         # state
         if gid >= 1 << (n * (n - 1) // 2):
@@ -113,7 +113,7 @@ def cross_job(n):
                 info = cl.stabilizer_circuit_lookup(n, c, k)
                 got = adapt.gates_of(info.parse_circuit())
                 want, _ = adapt.read_tokens(texts[c][k].split(":")[3])
-                if got != want or (info.cost, info.depth) != (int(texts[c][k].split(":")[1]), int(texts[c][k].split(":")[2])):
+                if adapt.circuit_key(got) != adapt.circuit_key(want) or (info.cost, info.depth) != (int(texts[c][k].split(":")[1]), int(texts[c][k].split(":")[2])):
                     out.append((n, c, k))
     return n, docs.CLASS_COUNT[n] * len(conns) * 2, out
 
